@@ -1,0 +1,41 @@
+//go:build verif
+// +build verif
+
+package main
+
+import (
+	"net/http"
+	neturl "net/url"
+	"os"
+)
+
+// verifRedirect sends every request of the tool to the server named by
+// BIP39_VERIF_WORDLIST_URL (scheme://host[:port]) keeping path and query.
+type verifRedirect struct {
+	base *neturl.URL
+	next http.RoundTripper
+}
+
+func (v verifRedirect) RoundTrip(req *http.Request) (*http.Response, error) {
+	r2 := req.Clone(req.Context())
+	u := *req.URL
+	u.Scheme = v.base.Scheme
+	u.Host = v.base.Host
+	r2.URL = &u
+	r2.Host = v.base.Host
+	return v.next.RoundTrip(r2)
+}
+
+// Only exists in builds with the "verif" tag: lets an external verification
+// harness serve the upstream word files from a loopback server.
+func init() {
+	target := os.Getenv("BIP39_VERIF_WORDLIST_URL")
+	if target == "" {
+		return
+	}
+	base, err := neturl.Parse(target)
+	if err != nil || base.Host == "" {
+		return
+	}
+	http.DefaultTransport = verifRedirect{base: base, next: http.DefaultTransport}
+}
